@@ -232,3 +232,50 @@ def run_loop_isolated(rel, qualname, ordinal, ctx=None, find_kw=None, inner_mode
     res = ex.iterate_loop(node, st)
     info = {"names": names, "node": node, "nloops": len(loops)}
     return fn, ex, res, info
+
+
+def run_region(rel, qualname, select, ctx=None, find_kw=None, loop_mode="havoc"):
+    """Statement contract on a region of a large function: `select(body_statements) -> list of statement nodes`
+    picks consecutive top-level statements of the function body; they are executed from an ARBITRARY state
+    (every local a free symbol L_<name>, arbitrary heap).  Returns (fn, ex, final_states, info)."""
+    from . import stl as STLM, symex as SX
+    from .symex import is_record_type, sort_of
+    fn = A.find_function(rel, qualname, **(find_kw or {}))
+    if ctx is None:
+        ctx = Ctx()
+        ctx.stl = STLM.STL(SX)
+    if ctx.loop is None:
+        ctx.loop = (lambda ex, st, n, o: ex.havoc_loop(n, st)) if loop_mode == "havoc" else None
+    ex = Exec(ctx)
+    ex.local_ids = set(); ex.addr_taken = set(); ex.loop_ids = {}
+    names = {}
+    st = State()
+    for x in A.walk(fn):
+        k = x.get("kind")
+        if k in ("ForStmt", "WhileStmt", "DoStmt"):
+            ex.loop_ids[x.get("id")] = len(ex.loop_ids)
+        if k == "UnaryOperator" and x.get("opcode") == "&":
+            c = x["inner"][0]
+            while c.get("kind") == "ParenExpr":
+                c = c["inner"][0]
+            if c.get("kind") == "DeclRefExpr" and c["referencedDecl"].get("kind") in ("VarDecl", "ParmVarDecl"):
+                ex.addr_taken.add(c["referencedDecl"]["id"])
+    for x in A.walk(fn):
+        if x.get("kind") in ("VarDecl", "ParmVarDecl") and "id" in x:
+            ex.local_ids.add(x["id"])
+            nm = x.get("name", "_")
+            names.setdefault(nm, x["id"])
+            q = x["type"].get("desugaredQualType") or x["type"]["qualType"]
+            if q.strip().endswith("&"):
+                st.locals[x["id"]] = ("ref", ("elem", tm.sym("L_%s_ref" % nm, "P"), tm.num(0, "I")))
+            elif is_record_type(q, ctx) or q.strip().endswith("]") or x["id"] in ex.addr_taken:
+                st.locals[x["id"]] = ("obj", tm.sym("&L_%s" % nm, "P"))
+            else:
+                st.locals[x["id"]] = tm.sym("L_%s" % nm, sort_of(q))
+    stmts = select(A.body_of(fn).get("inner", []))
+    if not stmts:
+        raise Undecided("region not found in %s" % qualname)
+    states = [st]
+    for n in stmts:
+        states = ex.exec(n, states)
+    return fn, ex, states, {"names": names, "stmts": stmts}
